@@ -206,3 +206,21 @@ package compiler
 //@   loop 1 invariant p.neededBalances == old(p.neededBalances) && p.neededBalances != nil
 //@   modifies map[machine.Address]map[machine.Address]struct{}, map[machine.Address]struct{}
 //@   property C12
+
+// ---- C12: rendering a compile error never panics. The positions come from ANTLR (syntax errors, through ErrorListener)
+// and from the parse tree (LogicError / InternalError); what is assumed about them is stated against the lines Error()
+// itself cuts the source into: a position lies on an existing line, the start column is at most the length of that
+// line's text (the position just past the text for an error at end of input), the end is not before the start.
+// What is proved: with every line carrying a terminator (the last one gets it appended), no slice expression goes out of range.
+//@ def srcLines(c) = lib("strings.SplitAfter", lib("strings.ReplaceAll", lib("strings.ReplaceAll", c.Source, "\t", " "), "\r\n", "\n"), "\n")
+//@ def lineText(c, k) = len(srcLines(c)[k]) - ite(k < len(srcLines(c)) - 1, 1, 0)
+//@ func (*compiler.CompileErrorList).Error
+//@   requires c != nil
+// (strings.SplitAfter: at least one piece, every piece but the last ends with the separator)
+//@   assumes len(srcLines(c)) >= 1 && (forall k0 in 0..len(srcLines(c))-1 :: len(srcLines(c)[k0]) >= 1)
+//@   assumes forall e0 in 0..len(c.Errors) :: 1 <= c.Errors[e0].StartL && c.Errors[e0].StartL <= c.Errors[e0].EndL && c.Errors[e0].EndL <= len(srcLines(c)) && 0 <= c.Errors[e0].StartC && c.Errors[e0].StartC <= lineText(c, c.Errors[e0].StartL - 1) && c.Errors[e0].EndC >= 0 - 1 && (c.Errors[e0].StartL == c.Errors[e0].EndL ==> c.Errors[e0].EndC >= c.Errors[e0].StartC - 1)
+//@   loop 1 invariant 0 - 1 <= rangeindex && rangeindex < len(c.Errors) && len(lines) == len(srcLines(c)) && (forall k1 in 0..len(lines) :: len(lines[k1]) >= lineText(c, k1) + 1)
+//@   loop 2 invariant e.StartL <= l && l <= e.EndL + 1 && e == c.Errors[rangeindex] && 0 <= rangeindex && rangeindex < len(c.Errors) && len(lines) == len(srcLines(c)) && (forall k2 in 0..len(lines) :: len(lines[k2]) >= lineText(c, k2) + 1)
+//@   modifies nothing
+//@   nopanic // C12
+//@   property C12
